@@ -158,8 +158,42 @@ func (v *v07OFF) headerEnd(b []byte) int {
 	return n
 }
 
+// ---- OFF through the channel's publisher (DataPublisher.SetOFF / PublishData / Flush / RemoveOFF): what the
+// publisher does with a record before it reaches the writer is part of what ends up in the file.
+type v07Pub struct {
+	dp   DataPublisher
+	nb   int
+	ns   int
+	path string
+}
+
+func (v *v07Pub) create() error {
+	proj := mat.NewDense(v.nb, v.ns, []float64{1, 0, 0, 0, 0, 1, 0, 0})
+	basis := mat.NewDense(v.ns, v.nb, []float64{1, 0, 0, 1, 0, 0, 0, 0})
+	v.dp.SetOFF(0, 2, v.ns, 1, 1e-3, vT0, 1, 1, 1, 1, 0, 0, 0, v.path, "verif", "chan1", 1, proj, basis, "verif", Pixel{})
+	return v.dp.OFF.CreateFile()
+}
+func (v *v07Pub) header() error { return v.dp.OFF.WriteHeader() }
+func (v *v07Pub) rec(k int) *DataRecord {
+	return &DataRecord{data: make([]RawType, v.ns), presamples: 2, trigFrame: FrameIndex(k), trigTime: time.Unix(0, int64(1000+k)),
+		pretrigMean: float64(k) + 0.5, pretrigDelta: 0.25, residualStdDev: 1.5, modelCoefs: []float64{float64(k), float64(k) + 0.25}}
+}
+func (v *v07Pub) record(k int) error { return v.dp.PublishData([]*DataRecord{v.rec(k)}) }
+func (v *v07Pub) flush()             { v.dp.Flush() }
+func (v *v07Pub) close()             { v.dp.RemoveOFF() }
+func (v *v07Pub) recBytes(k int) []byte {
+	o := &v07OFF{nb: v.nb, ns: v.ns}
+	return o.recBytes(k)
+}
+func (v *v07Pub) headerEnd(b []byte) int {
+	o := &v07OFF{nb: v.nb, ns: v.ns}
+	return o.headerEnd(b)
+}
+
 func v07Make(kind string, path string) v07Writer {
 	switch kind {
+	case "offpub":
+		return &v07Pub{nb: 2, ns: 4, path: path}
 	case "ljh22":
 		return &v07LJH{w: &ljh.Writer{FileName: path, Samples: 4, Presamples: 2, Timebase: 1e-3, TimestampOffset: vT0, NumberOfRows: 1, NumberOfColumns: 1, NumberOfChans: 1, SubframeDivisions: 1, ChanName: "chan1"}, nsamp: 4}
 	case "ljh3":
@@ -290,13 +324,16 @@ func TestVerifC07(t *testing.T) {
 	if r.Thorough() {
 		pb = 3
 	}
-	r.SetBound(fmt.Sprintf("all interleavings of producer (create, header, 2-3 records, optional flush, close) and the real writeLoop goroutine with at most %d preemptions, all select alternatives; writers LJH2.2, LJH3, OFF; queue depth 2..9", pb))
+	r.SetBound(fmt.Sprintf("all interleavings of producer (create, header, 2-3 records, optional flush, close) and the real writeLoop goroutine with at most %d preemptions, all select alternatives; writers LJH2.2, LJH3, OFF, and OFF driven through DataPublisher.PublishData (one record per call); queue depth 2..20", pb))
 	dir := filepath.Join(os.Getenv("TMPDIR"), "c07")
 	os.MkdirAll(dir, 0755)
 	var scs []v07Scenario
-	for _, kind := range []string{"ljh22", "ljh3", "off"} {
-		depths := map[string][]int{"ljh22": {2, 3, 4, 5}, "ljh3": {3, 5, 6, 7}, "off": {5, 8, 9, 12}}[kind]
+	for _, kind := range []string{"ljh22", "ljh3", "off", "offpub"} {
+		depths := map[string][]int{"ljh22": {2, 3, 4, 5}, "ljh3": {3, 5, 6, 7}, "off": {5, 8, 9, 12}, "offpub": {9, 20}}[kind]
 		for _, d := range depths {
+			if kind == "offpub" && d > 9 && !r.Thorough() {
+				continue
+			}
 			for _, nrec := range []int{2, 3} {
 				for _, fa := range []int{-1, 1, 2} {
 					if fa > nrec {
